@@ -378,29 +378,6 @@ func c12Exec(ctx *core.Ctx, c c12Case) {
 			checkCaps()
 		}
 	}
-	// STARTTLS accepted but the handshake fails (the peer sends something that is not a TLS
-	// record): if the connection goes on, it is a plaintext connection and must advertise as one
-	if !failed && c.TLS == "available" {
-		closeConn()
-		if !open() {
-			closeConn()
-			return
-		}
-		cmd(hello + " probe.test")
-		if r := cmd("STARTTLS"); r.Code == 220 {
-			p.SendStr("NOOP\r\n")
-			if _, err := p.ReadUntilStall(); err == nil {
-				ctx.Add("failed_handshakes_followed_by_a_capability_check", 1)
-				checkCaps()
-			}
-		}
-		closeConn()
-		if !open() {
-			closeConn()
-			return
-		}
-		cmd(hello + " probe.test")
-	}
 	// STARTTLS last
 	if !failed && fresh() {
 		r := cmd("STARTTLS")
@@ -429,6 +406,26 @@ func c12Exec(ctx *core.Ctx, c c12Case) {
 						fail("C12:starttls-inside-tls", fmt.Sprintf("STARTTLS inside TLS answered %s", r))
 					}
 				}
+			}
+		}
+	}
+	// STARTTLS accepted but the handshake fails (the peer sends something that is not a TLS
+	// record): if the connection goes on, it is a plaintext connection and must advertise as one
+	// (on a connection of its own, after everything else)
+	if !failed && c.TLS == "available" {
+		cmd("QUIT")
+		closeConn()
+		if !open() {
+			closeConn()
+			return
+		}
+		tlsActive = false
+		cmd(hello + " probe.test")
+		if r := cmd("STARTTLS"); r.Code == 220 {
+			p.SendStr("NOOP\r\n")
+			if _, err := p.ReadUntilStall(); err == nil {
+				ctx.Add("failed_handshakes_followed_by_a_capability_check", 1)
+				checkCaps()
 			}
 		}
 	}
